@@ -27,7 +27,7 @@ MULTI = drv.MULTI_KINDS
 # ---------------------------------------------------------------- judging one behaviour record
 
 def _pass_key(a):
-    return json.dumps([a["mech"], a["K"], a["I"], a["ht"], a["scr"], a["reg"], a["sec"], a["fresh"]])
+    return json.dumps([a["mech"], a["K"], a["I"], a["ht"], a["scr"], a["reg"], a["sec"], a["fresh"], a["ic"]])
 
 
 def _case_key(rec):
@@ -81,6 +81,9 @@ def _judge_step(rec, j, prev, node, base):
     if node.exc:
         F("C05|sign|exception=%s|%s" % (node.exc.split(":")[0], ctxs), "signing raised %s" % node.exc)
         return "bad", fails
+    if a["mech"] == "keychain" and not node.ses.same_as_fresh:
+        F("C05|keychain-history|long-lived-differs-from-fresh|%s" % ("after-kc_add" if any(x["mech"] == "kc_add" for x in rec["acts"][:j]) else "passes-only"),
+          "the long-lived keychain signed differently from a fresh keychain holding the same paths / secrets / scripts")
     before_frame = prev.frame if prev is not None else base[0]
     before_unl = prev.unl if prev is not None else base[1]
     fd = drv.frame_diff(before_frame, node.frame)
@@ -240,8 +243,8 @@ def run(ctx):
 
     # 2. spec -> code
     if want("replay") or any(o.startswith("replay_") for o in (only or ())):
-        plans = ([("MC_SignerReplay_ord_q", {}), ("MC_SignerReplay_prod", {}), ("MC_SignerReplay_lim_q", {})] if q else
-                 [("MC_SignerReplay_ord_t", {}), ("MC_SignerReplay_prod", {}), ("MC_SignerReplay_lim_t", {})])
+        plans = ([("MC_SignerReplay_ord_q", {}), ("MC_SignerReplay_prod", {}), ("MC_SignerReplay_kc_q", {}), ("MC_SignerReplay_lim_q", {})] if q else
+                 [("MC_SignerReplay_ord_t", {}), ("MC_SignerReplay_prod", {}), ("MC_SignerReplay_kc_t", {}), ("MC_SignerReplay_lim_t", {})])
         for cfg, kw in plans:
             if only is not None and "replay" not in only and not any(o.startswith("replay_") and o[7:] in cfg for o in only):
                 continue
@@ -263,7 +266,7 @@ def run(ctx):
                 ctx.fail(key, what, detail)
         # binding self-test: a behaviour whose expected outcome is corrupted must be rejected
         rec = {"k": "beh", "coin": "BTC", "shape": [{"kind": "p2pkh", "m": 1, "keys": [1], "form": "c"}],
-               "acts": [{"mech": "lookup", "K": [1], "I": [1], "ht": 1, "scr": True, "reg": [], "sec": [], "fresh": True,
+               "acts": [{"mech": "lookup", "K": [1], "I": [1], "ht": 1, "scr": True, "reg": [], "sec": [], "fresh": True, "ic": "none",
                          "sup": [1], "touch": [1], "allowed": [{"s": [[[1, 1]]], "v": [True]}]}],
                "outs": [{"signed": [[[1, 1]]], "valid": [True]}],
                "flags": ["P2SH", "STRICTENC", "DERSIG", "LOW_S", "NULLDUMMY", "CLEANSTACK", "WITNESS", "NULLFAIL"], "sigbyte": 1}
@@ -337,7 +340,9 @@ def _record_random(args):
         listed = sorted(set(k for d in shape for k in d["keys"]))
         frame0 = hashlib.sha256(repr(sorted(drv.frame_of(ses.tx).items())).encode()).hexdigest()[:16]
         ev = []
-        mech0 = rnd.choice(["lookup", "wifs", "keychain"])
+        last_pr = [drv.project_input(coin, ses.tx, i, pz, bits) for i, pz in enumerate(ses.puzzles)]
+        last_unl = [drv.unlocking_of(ses.tx, i) for i in range(n)]
+        mech0 = rnd.choice(["lookup", "wifs", "keychain", "keychain"])
         for _ in range(rnd.randint(1, 6)):
             mech = mech0 if rnd.random() < 0.7 else rnd.choice(["lookup", "wifs", "keychain"])
             r = rnd.random()
@@ -351,14 +356,35 @@ def _record_random(args):
                 K.append(rnd.randint(25, 30))          # a wrong key
             # keep the number of ways an over-supplied pass may choose its signers small (TLC enumerates none,
             # but the real signer's choice must stay attributable)
-            I = sorted(rnd.sample(range(1, n + 1), rnd.randint(1, n))) if rnd.random() < 0.4 else list(range(1, n + 1))
+            r = rnd.random()
+            if r < 0.1:
+                I, ic = [], rnd.choice(["set", "list", "tuple"])          # explicitly nothing to sign
+            elif r < 0.45:
+                I, ic = sorted(rnd.sample(range(1, n + 1), rnd.randint(1, n))), rnd.choice(["set", "list", "tuple"])
+            else:
+                I, ic = list(range(1, n + 1)), rnd.choice(["none", "none", "list", "set"])
             p = {"mech": mech, "K": sorted(set(K)), "I": I, "ht": rnd.choice([1, 1, 2, 3, 129, 130, 131]),
-                 "scr": rnd.random() < 0.85, "reg": [], "sec": [], "fresh": True}
+                 "scr": rnd.random() < 0.85, "reg": [], "sec": [], "fresh": True, "ic": ic}
             if mech == "keychain":
                 p["reg"] = p["K"]
                 p["K"] = []
-                p["sec"] = [1, 2] if rnd.random() < 0.6 else rnd.choice([[1], [2], []])
-                p["fresh"] = rnd.random() < 0.6
+                p["sec"] = [1, 2] if rnd.random() < 0.5 else rnd.choice([[1], [2], []])
+                p["fresh"] = rnd.random() < 0.4
+                if rnd.random() < 0.5:
+                    # edit the long-lived keychain in a step of its own, then sign with what it holds
+                    add = {"mech": "kc_add", "K": [], "I": [], "ht": 1, "scr": p["scr"] and rnd.random() < 0.7,
+                           "reg": p["reg"] if rnd.random() < 0.7 else [], "sec": p["sec"] if rnd.random() < 0.7 else [],
+                           "fresh": False, "ic": "set"}
+                    ses.sign(add)
+                    e = dict(add)
+                    e.update({"signed": [x["signed"] for x in last_pr], "valid": [x["valid"] for x in last_pr],
+                              "reported": [x["ok_api"] for x in last_pr], "canonical": True, "same_as_fresh": True,
+                              "changed": [i + 1 for i in range(n) if drv.unlocking_of(ses.tx, i) != last_unl[i]],
+                              "frame": hashlib.sha256(repr(sorted(drv.frame_of(ses.tx).items())).encode()).hexdigest()[:16]})
+                    ev.append(e)
+                    p["fresh"] = False
+                    if rnd.random() < 0.6:
+                        p["reg"], p["sec"], p["scr"] = [], [], False
             before = [drv.unlocking_of(ses.tx, i) for i in range(n)]
             exc = None
             try:
@@ -371,6 +397,8 @@ def _record_random(args):
             e["valid"] = [x["valid"] for x in pr]
             e["reported"] = [x["ok_api"] for x in pr]
             e["canonical"] = not any(x["enc"] for x in pr) and exc is None and not any("crash" in x for x in pr)
+            e["same_as_fresh"] = bool(ses.same_as_fresh) if mech == "keychain" else True
+            last_pr, last_unl = pr, [drv.unlocking_of(ses.tx, i) for i in range(n)]
             e["changed"] = [i + 1 for i in range(n) if drv.unlocking_of(ses.tx, i) != before[i]]
             e["frame"] = hashlib.sha256(repr(sorted(drv.frame_of(ses.tx).items())).encode()).hexdigest()[:16]
             e["note"] = {"exc": exc, "err": [x.get("err") for x in pr], "enc": [x["enc"] for x in pr],
@@ -538,7 +566,7 @@ def replay(ctx, obj):
     ses = drv.Session(coin, shape)
     bits = drv.flag_bits(policy_names_for(coin))
     for a in acts:
-        p = {k: a[k] for k in ("mech", "K", "I", "ht", "scr", "reg", "sec", "fresh")}
+        p = {k: a.get(k, "none" if k == "ic" else None) for k in ("mech", "K", "I", "ht", "scr", "reg", "sec", "fresh", "ic")}
         try:
             ses.sign(p)
             exc = None
